@@ -82,6 +82,26 @@ def stepC10 (_ : Unit) (line : String) : Unit × String :=
           agree (scheds.map (fun sc => (Merge.result (Merge.sys.run sc fuel 0
             (Merge.init (d == "1") ka.toNat kb.toNat la lb))).map toString))
         | _, _, _, _ => "bad-op"
+      | "shsel" =>
+        match (getArg a "r").bind (parseNat · 16), getArg a "sync", (getArg a "lists").bind parseLists with
+        | some r, some sy, some ls =>
+          if (sy != "bar" && sy != "yield" && sy != "none") || ls.isEmpty || ls.any (fun l => l.length < r) then "bad-op" else
+          let fuel := 2 * r * ls.length
+          agree (scheds.map (fun sc => (SelN.result (SelN.sys.run sc fuel 0 (SelN.init false r ls))).map
+            (fun res => "[" ++ " ".intercalate (res.map showInts) ++ "]")))
+        | _, _, _ => "bad-op"
+      | "calls" =>
+        match (getArg a "lists").bind parseLists with
+        | some ls =>
+          -- the nested goroutines (one per even delta and one per worker's c10risky call, each adding 1) are workers of the mutex model from the start:
+          -- a worker that exists earlier only adds interleavings
+          let extra := (ls.flatten.filter (fun d => d % 2 == 0)).map (fun _ => [(1 : Int)]) ++ ls.map (fun _ => [(1 : Int)])
+          let all := ls ++ extra
+          let fuel := 4 * lenLL all + 1
+          let rec_ := (ls.filter (fun l => l.length % 2 == 1)).length
+          agree (scheds.map (fun sc => (Mutex.result (Mutex.sys.run sc fuel 0 (Mutex.init true all))).map
+            (fun c => toString c ++ " " ++ toString rec_ ++ " 0")))
+        | none => "bad-op"
       | "f20" => "ok"        -- compile-while-running: outside the model (see notes/C10.md)
       | "f20child" => "ok"
       | _ => "bad-op"
